@@ -3,6 +3,7 @@ import LZ4V.Spec.BlockFast
 import LZ4V.Gen.Consts
 import LZ4V.Gen.Funcs
 import LZ4V.Model.Fast
+import LZ4V.Model.FastDS
 /-!
 # Judge for block-compressor records (op 1)
 
@@ -69,6 +70,23 @@ def judgeBlock (r : Rec) : Verdict := Id.run do
       if ret == 0 then v := { v with fails := ("model_fast_output_differs", s!"n={n} accel={accel} cap={cap}: model succeeds with {blk.length} bytes, real returns 0") :: v.fails }
     | none, true => v := { v with fails := ("model_fast_output_differs", s!"n={n} accel={accel} cap={cap}: model returns 0, real returns {ret}") :: v.fails }
     | none, false => v := { v with tags := "fastmodel.same_zero" :: v.tags }
+  -- LZ4_compress_destSize / LZ4_compress_destSize_extState : the fillOutput model (Model/FastDS.lean) must consume the same number of
+  -- bytes and produce the very same block
+  if (entry == 8 || entry == 9) && n ≤ 400000 then
+    let accel : Int := if entry == 8 then 1 else r.int 1
+    let capN : Nat := if cap < 0 then 0 else cap.toNat
+    let model : Option (Nat × List UInt8) :=
+      if capN ≥ bound.toNat then (LZ4V.Model.Fast.compressFast src.data accel capN bound.toNat).map (fun b => (n, b))
+      else LZ4V.Model.FastDS.compressDestSize src.data accel capN
+    match model, decide (ret > 0) with
+    | some (cons, blk), true =>
+      if cons != consumed || blk != out.toList then
+        v := { v with fails := ("model_destsize_output_differs", s!"n={n} accel={accel} target={cap}: model consumed {cons} -> {blk.length} bytes, real consumed {consumed} -> {out.size} bytes") :: v.fails }
+      v := { v with tags := "destsizemodel.same" :: v.tags }
+    | some (cons, blk), false =>
+      if ret == 0 then v := { v with fails := ("model_destsize_output_differs", s!"n={n} accel={accel} target={cap}: model consumed {cons} -> {blk.length} bytes, real returns 0") :: v.fails }
+    | none, true => v := { v with fails := ("model_destsize_output_differs", s!"n={n} accel={accel} target={cap}: model returns 0, real returns {ret}") :: v.fails }
+    | none, false => v := { v with tags := "destsizemodel.same_zero" :: v.tags }
   return v
 
 end LZ4V.Judge
